@@ -142,11 +142,24 @@ def Cont(s: "Type", t: "Type", p: "TypeParameter") -> "Bool":
 
 
 @ghost
+def Occurs(v: "Type", t: "Type") -> "Bool":
+    """the type variable v occurs, at any depth, in the type arguments of the parameterized type / projection t
+    (v itself is compared with the IR's own ==).  A recursive definition over the finite type structure."""
+    define((isinstance(t, WildCardType) and cast(t, "WildCardType").bound is not None
+            and (PyEq(cast(t, "WildCardType").bound, v) or Occurs(v, cast(t, "WildCardType").bound)))
+           or (not isinstance(t, WildCardType) and isinstance(t, ParameterizedType) and exists(lambda i: (
+               0 <= i and i < len(cast(t, "ParameterizedType").type_args)
+               and (PyEq(cast(t, "ParameterizedType").type_args[i], v)
+                    or Occurs(v, cast(t, "ParameterizedType").type_args[i]))))))
+
+
+@ghost
 def Sub(S: "Type", T: "Type") -> "Bool":
     """the declarative subtyping relation: least relation closed under these rules"""
     rule("refl", forall(lambda S, T: implies(same(S, T) or PyEq(T, S) or PyEq(S, T), Sub(S, T))))
     rule("bot", forall(lambda S, T: implies(IsNothing(S), Sub(S, T))))
-    rule("nom", forall(lambda S, U, T: implies(SupStar(S, U) and Sub(U, T), Sub(S, T))))
+    # (not for a bare generic class: its declared supertypes mention its own type parameters -- rules con-* below)
+    rule("nom", forall(lambda S, U, T: implies(not isinstance(S, TypeConstructor) and SupStar(S, U) and Sub(U, T), Sub(S, T))))
     rule("var", forall(lambda S, T: implies(
         isinstance(S, TypeParameter) and cast(S, "TypeParameter").bound is not None
         and Sub(cast(S, "TypeParameter").bound, T), Sub(S, T))))
@@ -163,6 +176,17 @@ def Sub(S: "Type", T: "Type") -> "Bool":
             0 <= i and i < len(cast(S, "ParameterizedType").type_args),
             Cont(cast(S, "ParameterizedType").type_args[i], cast(T, "ParameterizedType").type_args[i],
                  cast(S, "ParameterizedType").t_constructor.type_parameters[i]))),
+        Sub(S, T))))
+    # a bare generic class S (TypeConstructor) stands for all of its instantiations: it is below T when T is (equal to) S
+    # or one of its declared supertypes U, and -- if T is an instantiation -- no type parameter of S occurs anywhere in U
+    # (otherwise U changes with the instantiation of S)
+    rule("con-plain", forall(lambda S, U, T: implies(
+        isinstance(S, TypeConstructor) and (same(U, S) or SupStar(S, U)) and PyEq(T, U)
+        and not isinstance(T, ParameterizedType), Sub(S, T))))
+    rule("con-args", forall(lambda S, U, T: implies(
+        isinstance(S, TypeConstructor) and (same(U, S) or SupStar(S, U)) and PyEq(T, U)
+        and forall(lambda i: implies(0 <= i and i < len(cast(S, "TypeConstructor").type_parameters),
+                                     not Occurs(cast(S, "TypeConstructor").type_parameters[i], U))),
         Sub(S, T))))
 
 
@@ -223,6 +247,24 @@ def _(self: "Type") -> "Set[Type]":
         invariant("visited", forall(lambda U: implies(smem(visited, U), (same(U, self) or SupStar(self, U)) and Valid(U))))
         invariant("stack", forall(lambda U: implies(mem(stack, U), (same(U, self) or SupStar(self, U)) and Valid(U))))
         invariant("source", (same(source, self) or SupStar(self, source)) and Valid(source))
+
+
+@contract("src.ir.types._type_var_occurs_in", pure=True)
+def _(t_var: "Type", t: "Type") -> "Bool":
+    requires("valid", Valid(t))
+    ensures("def", result == Occurs(t_var, t))
+
+
+@contract("src.ir.types.TypeConstructor.is_subtype", pure=True)
+def _(self: "TypeConstructor", other: "Type") -> "Bool":
+    requires("valid-self", Valid(self))
+    requires("valid-other", Valid(other))
+    ensures("sound", implies(result, Sub(self, other)))
+    local(supertypes="Set[Type]", matched_supertype="Opt[Type]")
+    with loop("0"):
+        invariant("match", implies(matched_supertype is not None,
+                                   (same(matched_supertype, self) or SupStar(self, matched_supertype))
+                                   and PyEq(other, matched_supertype) and Valid(matched_supertype)))
 
 
 @contract("src.ir.types._is_type_arg_contained", pure=True)
